@@ -223,7 +223,15 @@ func Stall(site string) {
 		return
 	}
 	if c.Only != "" {
-		if site != c.Only || c.fired >= c.Budget {
+		if c.fired >= c.Budget {
+			return
+		}
+		if len(c.Only) > 3 && c.Only[:3] == "fn:" {
+			// "fn:<file>(<func>)": every preferred (tagged) site of one function
+			if !tagged(site) || !inFunc(site, c.Only[3:]) {
+				return
+			}
+		} else if site != c.Only {
 			return
 		}
 		h2 := mix64(c.Seed ^ uint64(time.Now().UnixNano()) ^ uint64(c.fired)<<40)
@@ -240,7 +248,7 @@ func Stall(site string) {
 	}
 	h = mix64(h)
 	pm := c.Permille
-	if len(site) > 3 && site[len(site)-3:] == "@go" {
+	if tagged(site) {
 		pm *= 4
 	}
 	if uint32(h%1000) >= pm {
@@ -255,4 +263,27 @@ func Stall(site string) {
 	}
 	c.fired++
 	time.Sleep(time.Microsecond << ((h2 >> 8) % uint64(c.MaxShift+1)))
+}
+
+func tagged(site string) bool {
+	n := len(site)
+	return n > 4 && (site[n-3:] == "@go" || site[n-4:] == "@unl")
+}
+
+// inFunc reports whether site ("file.go:l:c(func)tag") lies in fn ("file.go(func)").
+func inFunc(site, fn string) bool {
+	i := 0
+	for i < len(fn) && fn[i] != '(' {
+		i++
+	}
+	file, fun := fn[:i], fn[i:]
+	if len(site) <= len(file) || site[:len(file)] != file || site[len(file)] != ':' {
+		return false
+	}
+	for j := len(file); j+len(fun) <= len(site); j++ {
+		if site[j:j+len(fun)] == fun {
+			return true
+		}
+	}
+	return false
 }
